@@ -212,7 +212,7 @@ def reload_cases(tier, seed):
     """the configuration file is rewritten at every position of short histories"""
     rng = random.Random(seed + 3)
     cases = []
-    for i in range(60 if tier == "quick" else 1500):
+    for i in range(90 if tier == "quick" else 1500):
         s = wc.Script()
         cfg = wc.setup_world(s, wc.base_cfg(deb=rng.choice([1, 2])))
         s.start()
@@ -220,10 +220,11 @@ def reload_cases(tier, seed):
         files = [wc.WATCH + "/inc/a.txt", wc.WATCH + "/n"]
         steps = rng.randint(2, 7)
         at = rng.randint(0, steps)
+        s.dump()
         for j in range(steps + 1):
             if j == at:
                 new = copy.deepcopy(cfg)
-                kind = rng.choice(["deb", "queue", "journal", "rules", "invalid", "illtyped"])
+                kind = rng.choice(["deb", "queue", "journal", "rules", "invalid", "illtyped", "badjournal", "badjournal"])
                 if kind == "deb":
                     new.deb = rng.choice([0, 5])
                 elif kind == "queue":
@@ -232,16 +233,30 @@ def reload_cases(tier, seed):
                     new.journal = wc.R + "/k/var/journal2"
                 elif kind == "rules":
                     new.excluded = new.excluded + [wc.WATCH + "/n"]
+                elif kind == "badjournal":
+                    # well-typed, but the new journal cannot be opened (its parent is a regular file); the other
+                    # settings change too, so that a partly applied configuration shows
+                    new.journal = wc.CFG_PATH + "/journal"
+                    if rng.random() < 0.7:
+                        new.queue = wc.R + "/k/var/queue2"
+                    new.deb = rng.choice([0, 5])
+                    if rng.random() < 0.5:
+                        new.excluded = new.excluded + [wc.WATCH + "/n"]
+                failing = kind in ("invalid", "illtyped", "badjournal")
                 if kind in ("invalid", "illtyped"):
                     s.config(new, valid=False)
                 else:
                     s.config(new, valid=True)
-                    cfg = new
+                    if not failing:
+                        cfg = new
                 s.write(3, wc.CFG_PATH)
                 s.dump()
-                if kind in ("invalid", "illtyped"):
+                if failing and rng.random() < 0.4:
+                    # what main() does: the daemon stops; the administrator repairs the file and restarts
                     s.config(cfg, valid=True)
                     s.restart()
+                    s.dump()
+                # otherwise the same handler goes on being used: nothing of the rejected configuration may show
             else:
                 r = rng.random()
                 if r < 0.5:
@@ -260,17 +275,57 @@ def reload_cases(tier, seed):
     return cases
 
 
+def _cfg_fields(line):
+    d = {}
+    for t in line.split()[2:]:
+        k, _, v = t.partition("=")
+        d[k] = v
+    rel = lambda h: vlib.unhexs(h)[len(wc.R):]
+    return {"queue": rel(d["queue"]), "journal": rel(d["journal"]), "deb": int(d["deb"])}
+
+
 def mon_reload(steps, meta):
-    """after a write of an invalid configuration nothing of it is applied: the operation reports an error and the
-    next operations (after the restart the driver performs) behave as under the old configuration; for a valid one the
-    next journal line goes to the new journal and new entries go to the new queue"""
+    """all or nothing: a rewritten configuration that cannot be put in force (not Lua, ill-typed, journal cannot be
+    opened) is reported as an error and nothing of it is applied - later accepted writes are still linked in the old
+    queue directory and journalled in the old journal, whether or not the daemon is restarted; a valid one is
+    accepted and the next entries go to the new queue and the new journal"""
+    cfgs = {}
+    bound = None
+    inforce = None
+    prev_dump = None
+    pending = None      # (step, expected cfg) of a write whose effect the next dump must show
     for i, st in enumerate(steps):
-        if st.op == "write" and vlib.unhexs(st.tok[2]) == wc.CFG_PATH:
-            invalid = any(p.line.startswith("cfgbind invalid") for p in steps[max(0, i - 3):i])
-            if invalid and st.result != "error":
-                return "an invalid configuration was accepted"
-            if not invalid and st.result != "ok":
+        if st.op == "cfg":
+            cfgs[st.tok[1]] = _cfg_fields(st.line)
+        elif st.op == "cfgbind":
+            bound = st.tok[1]
+        elif st.op == "start" and st.result == "ok":
+            inforce = cfgs.get(st.tok[1])
+        elif st.op == "write" and vlib.unhexs(st.tok[2]) == wc.CFG_PATH:
+            bad = bound == "invalid" or (bound in cfgs and cfgs[bound]["journal"].startswith(wc.CFG_PATH[len(wc.R):] + "/"))
+            if bad and st.result != "error":
+                return "a configuration that cannot be put in force was accepted"
+            if not bad and st.result != "ok":
                 return "a valid configuration was rejected: %s" % st.trace
+            if st.result == "ok":
+                inforce = cfgs[bound]
+        elif st.op == "write" and st.result == "ok" and inforce is not None:
+            if any(l.split(" ")[1] == "symlinkat" for l in st.log):
+                pending = (st, inforce)
+        elif st.op == "dump" and st.dump is not None:
+            if pending and prev_dump is not None:
+                wst, c = pending
+                newlinks = [p for p, e in st.dump.items() if e[0] == "link" and p not in prev_dump and p.startswith("/k/var/queue")]
+                wrong = [p for p in newlinks if not p.startswith(c["queue"] + "/")]
+                if wrong or not newlinks:
+                    return ("the write '%s' was accepted while queue %s / journal %s are in force, but its entry appeared as %s"
+                            % (wst.line, c["queue"], c["journal"], wrong or "nothing"))
+                for jp in wk.JOURNALS:
+                    a, b = prev_dump.get(jp), st.dump.get(jp)
+                    if b is not None and (a is None or a[2] != b[2]) and jp != c["journal"]:
+                        return "the write '%s' was journalled in %s while journal %s is in force" % (wst.line, jp, c["journal"])
+            pending = None
+            prev_dump = st.dump
     return None
 
 
